@@ -198,6 +198,16 @@ def run(ck, P):
                                 done = "released"
                                 break
                             if e.callee in CONSUMERS and len(e.args) > CONSUMERS[e.callee] and S(e.args[CONSUMERS[e.callee]]) in al:
+                                # a container insert whose result is tested does not consume on its failing arm
+                                res = [d for d in rest if d.kind in ("decl", "assign") and d.rhs is not None and strip(d.rhs) is strip(e.e)
+                                       or (d.kind in ("decl", "assign") and d.rhs is not None and d.block.id == e.block.id and d.idx == e.idx + 1
+                                           and strip(d.rhs).get("callee") == e.callee)]
+                                failed = False
+                                if res and e.callee in ("m_bst_insert", "m_map_put"):
+                                    rv_ = S(res[0].lhs)
+                                    failed = a.get(rv_) is True or a.get("(%s == 0)" % rv_) is False
+                                if failed:
+                                    continue
                                 done = "consumed by %s" % e.callee
                                 break
                             if e.callee == "write" and len(e.args) > 1 and S(e.args[1]).lstrip("&") in al:
